@@ -21,7 +21,7 @@ RULE = (
     "signed step size 0.02-0.3 (constrained systems also 0.3-1.6 with 2-4 inner steps, where retractions become non-unique) x n in 1..20. Oracle: n steps, negate dir, n steps returns to the start within "
     "n*tau*(1+|z|), tau = 1e-11 explicit / 1e-7 implicit+constrained at default tolerances / 1e-9 tightened; a "
     "raising step must raise a mici IntegratorError subclass (counted as discard, never a pass); pos/mom/dir bytes "
-    "of the input state object are identical before and after every step call, raising ones included. Non-trivial: "
+    "of the input state object (writable, a read-only copy, or constructed read-only; with or without cached values) are identical before and after every step call, raising ones included. Non-trivial: "
     "no error and |z_n - z_0| > 1e-3. Distinct by SHA-1 of the case JSON."
 )
 ASSUMPTIONS = ["step sizes are kept inside the linear stability region of the zoo models (eps * omega_max < 2)"]
@@ -39,7 +39,11 @@ def _case(draw):
         ispec["n_inner"] = draw(st.integers(2, 4))
         ispec["tight"] = True
     return {"sys": spec, "int": ispec, "q": draw(vec(n, -1.2, 1.2)),
-            "p": draw(vec(n, -1.5, 1.5)), "dir": draw(st.sampled_from([1, -1])), "n": draw(st.integers(1, 20))}
+            "p": draw(vec(n, -1.5, 1.5)), "dir": draw(st.sampled_from([1, -1])), "n": draw(st.integers(1, 20)),
+            # how the caller holds the input state: an ordinary (writable) state, a read-only copy of it, or a state
+            # constructed read-only; states evaluated before the step carry cached values
+            "input": draw(st.sampled_from(["writable", "writable", "read-only-copy", "read-only-constructed"])),
+            "evaluated": draw(st.booleans())}
 
 
 @st.composite
@@ -78,10 +82,19 @@ def run_case(case) -> Result:
         res.classes.append("discard:start-state-outside-domain")
         return res
     state, q0, p0 = made
+    how = case.get("input", "writable")
+    if case.get("evaluated"):
+        system.h(state)
+    if how == "read-only-copy":
+        state = state.copy(read_only=True)
+    elif how == "read-only-constructed":
+        from mici.states import ChainState
+
+        state = ChainState(pos=np.array(state.pos), mom=np.array(state.mom), dir=int(state.dir), _read_only=True)
     integ = dyn.build_integrator(ispec, system)
     it = ispec["type"]
     label = it + (f"[{ispec.get('solver') or ispec.get('proj')}]" if it in dyn.IMPLICIT or it == "constrained" else "")
-    res.classes += ["int:" + label, "sys:" + spec["cls"], "tight" if ispec["tight"] else "default-tol"]
+    res.classes += ["int:" + label, "sys:" + spec["cls"], "tight" if ispec["tight"] else "default-tol", "input:" + how]
     n = case["n"]
     explicit = it in dyn.EXPLICIT
     tau = 1e-11 if explicit else (1e-9 if ispec["tight"] else 1e-7)
@@ -126,6 +139,8 @@ def run_case(case) -> Result:
         return res
     back = cur.copy()
     back.dir = -back.dir
+    if how != "writable":
+        back = back.copy(read_only=True)
     for k in range(n):
         back, err = step(back)
         if back is None:
